@@ -553,7 +553,7 @@ def run(ck):
                 (olo, ohi), ohi - olo + 1)
             if f.nbits is None:
                 # formats without an encoding: everything observable about a sample of candidate values
-                for x in cands[::7] + cands[-4:]:
+                for x in cands[::19] + cands[-4:]:
                     add(f'(OValue1 {f.term} {fl_val(x)}, {value_ops(f, x)})', f, 'value')
             if dec:
                 nprop += direct_property(ck, f, dec, cands, report)
